@@ -226,11 +226,14 @@ func tableDocs(c *Ctx) (docs []string, kinds []string) {
 
 // scaledDocs: a pattern repeated until the document is just below, at and just above the sizes at
 // which buffers, caches and statistics of an implementation typically change behaviour.
-func scaledDocs() []string {
+func scaledDocs(maxSize int) []string {
 	pats := []string{"a ", "[a](/b) ", "*a* **b** ", "`a` ", "&amp; &#65; ", "- a\n", "> a\n", "a\n", "a\n\n", "# a b\n\n", "[r] ", "<b>x</b> ", "a\\\n", "1. a\n   b\n", "http://a.b/c ", "\"q\" -- ", "~~s~~ "}
 	var out []string
 	for _, p := range pats {
 		for _, size := range []int{64, 128, 256, 512, 1024, 4096, 8192} {
+			if size > maxSize {
+				continue
+			}
 			for _, d := range []int{-1, 0, 1} {
 				n := (size + d*len(p)) / len(p)
 				if n < 1 {
@@ -244,13 +247,24 @@ func scaledDocs() []string {
 			}
 		}
 	}
-	out = append(out, "| a | b |\n|---|---|\n"+strings.Repeat("| `x\\|y` | z |\n", 70), "x"+strings.Repeat("[^1]", 40)+"\n\n[^1]: n\n", strings.Repeat("- [ ] t\n", 130))
+	// one inline construct around a text of every length near the limits the specification and the
+	// implementation know (a link label has at most 999 characters), closed and unclosed
+	for _, w := range [][2]string{{"[", "]"}, {"![", "]"}, {"[", "][r]"}, {"[", "]()"}, {"[", "]: /u"}, {"*", "*"}, {"`", "`"}, {"<a href=\"", "\">"}, {"[^", "]"}, {"~~", "~~"}, {"\"", "\""}} {
+		for _, n := range []int{126, 127, 128, 129, 254, 255, 256, 257, 997, 998, 999, 1000, 1001, 1002} {
+			if n > maxSize*2 {
+				continue
+			}
+			body := strings.Repeat("ab ", n/3+1)[:n-1] + "c"
+			out = append(out, "x "+w[0]+body+w[1]+" y\n\n[r]: /u\n", w[0]+body+"\n")
+		}
+	}
+	out = append(out, "| a | b |\n|---|---|\n"+strings.Repeat("| `x\\|y` | z |\n", 40), "x"+strings.Repeat("[^1]", 40)+"\n\n[^1]: n\n", strings.Repeat("- [ ] t\n", 130))
 	return out
 }
 
 func generatedDocs(c *Ctx, nSim int) []string {
 	out, _ := tableDocs(c)
-	out = append(out, scaledDocs()...)
+	out = append(out, scaledDocs(512)...) // (tree acceptors are super-linear in the number of nodes; C01 adds the large sizes)
 	seen := map[string]bool{}
 	r := RunTLC(TLCOpts{Module: "CMGen", Cfg: "gen.cfg", CfgText: cmCfg(5, 3, true, true), Workers: 4, Timeout: 30 * time.Minute,
 		Simulate: fmt.Sprintf("num=%d", nSim/4), Depth: 40, Seed: c.Seed*17 + 5, OnJSON: func(raw []byte) {
@@ -312,6 +326,32 @@ func generatedDocs(c *Ctx, nSim int) []string {
 			infra("BlockSem workload: TLC failed\n%s", r.Tail)
 		}
 		c.Ev.TLC("BlockSem "+a+" simulation (workload)", r)
+	}
+	return out
+}
+
+// extTriggerFamilies: per extension, the tokens its syntax is made of (and a few neighbours).
+var extTriggerFamilies = [][]string{
+	{"'", "\"", "-", ".", "9", "s", "a", " ", "\n"},                         // typographer
+	{"www.", "http://", "a", ".", "b/", "@", "_", "(", ")", "<", " ", "\n"}, // linkify
+	{"|", "-", ":", "a", " ", "\n", "\\|", "`"},                             // table
+	{"[^", "a", "]", ":", " ", "\n", "[", "^", "!"},                         // footnote
+	{":", " ", "a", "\n", "  ", "~"},                                        // definition list
+	{"- ", "[", " ", "x", "]", "a", "\n"},                                   // task list
+	{"~", "~~", "a", " ", "\n", "*"},                                        // strikethrough
+}
+
+// triggerTokenDocs: every short sequence over the trigger alphabet of each extension (the
+// sequences end a block: an extension's inline parser looks ahead from its trigger byte and must
+// stop at the end of the block).
+func triggerTokenDocs() []string {
+	var out []string
+	for _, fam := range extTriggerFamilies {
+		n := 4
+		if len(fam) > 9 {
+			n = 3
+		}
+		shortStrings(fam, n, func(s string) { out = append(out, s) })
 	}
 	return out
 }
